@@ -73,6 +73,7 @@ func init() {
 			}
 			add(map[string]string{"replica": "2", "attempts": "2", "extra": "1", "td": "small", "ready": "1"})
 			add(map[string]string{"replica": "1", "attempts": "3", "extra": "0", "td": "over", "ready": "1"})
+			jobs = append(jobs, recipes("C12", "tiny-reduce")(tier, seed)...)
 			if tier == "thorough" {
 				for _, td := range []string{"half", "over"} {
 					for _, extra := range []string{"0", "2"} {
@@ -246,7 +247,7 @@ func init() {
 				add("authz", 2, map[string]string{"rounds": "1", "relayers": "2"})
 				add("actor", 2, map[string]string{"rounds": "3"})
 				add("genesis", 10, map[string]string{"profile": "renewheavy", "ops": "60", "cont": "60", "drain": "1"})
-				for _, m := range []string{"migrated", "debt-expire", "debt-release", "queued", "afterroll", "shorter", "longer", "term-reassign", "fp-reassign", "multiversion-migrate", "unaligned"} {
+				for _, m := range []string{"migrated", "debt-expire", "debt-release", "queued", "afterroll", "shorter", "longer", "term-reassign", "fp-reassign", "multiversion-migrate", "unaligned", "tiny-reduce", "fp-renewed", "double-migrate"} {
 					add("renewals", 3, map[string]string{"mode": m})
 				}
 			} else {
@@ -349,7 +350,7 @@ func init() {
 
 	check.RegisterSpec(&check.Spec{Prop: "C13", Level: "exploration",
 		Rule:        "seeded random walks over the order lifecycle (store/ready/complete/update/force-push/renew/terminate/cancel/migrate/claim/capacity changes, silent providers, block advance across every scheduled height); after every block all relations are evaluated on the committed state. A case is the shape (bucketed counts of orders, shards, models, pending timeouts, pending expiries) of a state on which the relations were evaluated; distinct_nontrivial counts distinct shapes with at least one order or model.",
-		Jobs:        withExtra(lifeJobs("C13", 5, 64, nil), recipes("C13", "migrated", "afterroll", "longer")),
+		Jobs:        withExtra(lifeJobs("C13", 5, 64, nil), recipes("C13", "migrated", "afterroll", "longer", "tiny-reduce", "double-migrate", "fp-renewed")),
 		MinCases:    map[string]int{"quick": 10, "thorough": 30},
 		Assumptions: []string{"state is read through the keepers' own getters over the committed multistore", "workloads reach only the states the seeded walks produce"}})
 	check.Register("recreate", scnRecreate)
@@ -358,7 +359,7 @@ func init() {
 	lifeRule := "seeded random walks over the order lifecycle — store (sizes around the 1e-6 price rounding, replica 1-3, durations 3600-6000, sponsored payment, owner-submitted + Ready), staggered completion with silent providers, update, force-push, renew (several in a row, shorter and longer), terminate at every phase, cancel, migrate, claim, capacity add/remove, a provider without liquid balance (debt paths) — with block advance to just before / at / after every scheduled height and a final drain across all schedules; five weight profiles. "
 	check.RegisterSpec(&check.Spec{Prop: "C04", Level: "exploration",
 		Rule:        lifeRule + "The monitor decides every store/renew charge against the quote and the rightful payer, classifies every transfer touching the order/market escrows, keeps a reference income per provider (unit price x bytes x blocks over observed holdings) and a conservation balance with a dust bound of one coin per charge/refund settlement. A case is a charge shape (size, replicas, sponsored), an ending path (expiry, rotation to renewal, terminate, cancel, timeout-cancel, replica reduction, force-push) or a claim class; distinct_nontrivial counts distinct cases.",
-		Jobs:        withExtra(lifeJobs("C04", 5, 64, nil), recipes("C04", "shorter", "queued", "migrated", "debt-release", "term-reassign", "fp-reassign")),
+		Jobs:        withExtra(lifeJobs("C04", 5, 64, nil), recipes("C04", "shorter", "queued", "migrated", "debt-release", "term-reassign", "fp-reassign", "fp-renewed", "double-migrate")),
 		MinCases:    map[string]int{"quick": 12, "thorough": 25},
 		Assumptions: []string{"bank transfer events are complete; prices are exact in 18 decimals"}})
 	check.RegisterSpec(&check.Spec{Prop: "C05", Level: "exploration",
@@ -387,7 +388,7 @@ func init() {
 		Assumptions: []string{"liabilities are recomputed from exported module state"}})
 	check.RegisterSpec(&check.Spec{Prop: "C07", Level: "exploration",
 		Rule:        lifeRule + "For every transaction, begin block and end block the monitor compares, per provider, coins moved to/from the node escrow with the change of recorded collateral net of debt, checks recipients, withdrawal against free capacity of the pre-state, and row bounds. A case is (operation, debts present, number of node-escrow flows) or (withdrawal: leaves zero free / capacity in use); distinct_nontrivial counts distinct cases.",
-		Jobs:        withExtra(lifeJobs("C07", 5, 48, nil), recipes("C07", "shorter", "longer", "debt-release", "debt-expire", "migrated")),
+		Jobs:        withExtra(lifeJobs("C07", 5, 48, nil), recipes("C07", "shorter", "longer", "debt-release", "debt-expire", "migrated", "fp-renewed")),
 		MinCases:    map[string]int{"quick": 10, "thorough": 20},
 		Assumptions: []string{"reward claims are decided by C08"}})
 	check.RegisterSpec(&check.Spec{Prop: "C08", Level: "exploration",
@@ -416,7 +417,7 @@ func init() {
 	check.RegisterSpec(&check.Spec{Prop: "C11", Level: "exploration",
 		Rule: lifeRule + "Plus recipes: cancel / timeout / terminate (completed and in flight) followed by re-creation of the same data id and advance across the old and new scheduled heights. The monitor builds the reference timetable from accepted requests and checks existence, provider, capacity accounting, model presence and release at every block boundary. A case is a release class (renewals, migrated, term bucket), an early ending (terminate, force-push), a migration hand-over or a re-creation mode; distinct_nontrivial counts distinct cases.",
 		Jobs: withExtra(lifeJobs("C11", 5, 64, nil), func(tier string, seed int64) []check.Job {
-			jobs := recipes("C11", "queued", "afterroll", "migrated", "shorter")(tier, seed)
+			jobs := recipes("C11", "queued", "afterroll", "migrated", "shorter", "double-migrate", "fp-renewed")(tier, seed)
 			n := 1
 			if tier == "thorough" {
 				n = 8
@@ -442,6 +443,7 @@ func init() {
 			for i := 0; i < nv; i++ {
 				jobs = append(jobs, check.Job{Prop: "C16", Scenario: "versions", Seed: seed*1000000007 + int64(i), Args: map[string]string{"rounds": "3"}})
 			}
+			jobs = append(jobs, recipes("C16", "fp-renewed", "fp-renewed")(tier, seed)...)
 			n, rounds := 1, "1"
 			if tier == "thorough" {
 				n, rounds = 8, "2"
@@ -455,7 +457,7 @@ func init() {
 		Assumptions: []string{"history is read from the metadata query after every transaction and block"}})
 	check.RegisterSpec(&check.Spec{Prop: "C14", Level: "exploration",
 		Rule:        "same lifecycle walks; after every block the six aggregate equalities are evaluated per provider and network-wide. A case is the bucketed (providers, live shards, any renewed shard, open debts) shape of a state; distinct_nontrivial counts distinct shapes.",
-		Jobs:        withExtra(lifeJobs("C14", 5, 64, nil), recipes("C14", "shorter", "debt-release", "debt-expire", "unaligned")),
+		Jobs:        withExtra(lifeJobs("C14", 5, 64, nil), recipes("C14", "shorter", "debt-release", "debt-expire", "unaligned", "fp-renewed", "double-migrate")),
 		MinCases:    map[string]int{"quick": 6, "thorough": 12},
 		Assumptions: []string{"state is read through the keepers' own getters over the committed multistore"}})
 }
